@@ -91,6 +91,26 @@ CHECKS = {
          "Every generated history is executed on the real paych actor inside the monitoring VM; after every call the observed acceptance, to_send, lanes, settle heights, payouts and actor deletion are compared with a literal reference channel. Held on the histories explored; not a proof.",
          "Trusted: MVM message/value/deletion semantics (differentially checked against the repo's TestVM), the harness signature scheme, my reading of the statement (lanes merged form a set).",
          "DESIGN.md 3/C16"),
+ "C11": ("exploration",
+         "hand-written caller specification table executed as an exhaustive (method x caller class) matrix on the real actors in fixture worlds; state-equality oracle on every rejected cell",
+         "Every specified (actor, method) row is called by each of 28 caller classes from a restored snapshot: designated callers must succeed and have validated the caller, all others must fail and leave every actor's state, balance and code unchanged; method numbers below 2^24 must reject EVM-typed callers; undefined method numbers 1..40 plus exported-range samples must be rejected. Rows without a succeeding fixture call are decided on the rejection side only (listed in the evidence). Held on the matrix executed.",
+         "Trusted: my specification table (from the role descriptions, not generated from the code); MVM caller-validation semantics (FVM trampoline behaviour re-implemented: abort if the caller was not validated).",
+         "DESIGN.md 3/C11"),
+ "C17": ("exploration",
+         "differential execution: real EVM actor (deployed and invoked through EAM/InvokeContract in the monitoring VM) vs an independent reference interpreter over generated programs",
+         "Boundary-operand single instructions, structured programs (jumps, loops, memory, MCOPY, storage, transient storage, copies, KECCAK256), byte-level mutants and stack-limit programs run on both; outcome class, return/revert data and every touched storage slot must agree. Held on the programs explored.",
+         "Trusted: the reference interpreter harness/src/refevm.rs (own Keccak, num-bigint arithmetic, 52 self-tests against published vectors); MVM; no gas model.",
+         "DESIGN.md 3/C17"),
+ "C18": ("exploration",
+         "arbitrary bytes as init code / runtime code / calldata on the real actor with guarded interpreter hooks (stack high-water mark, memory size, taken jumps, step watchdog) + state-tree-root monitors around every read-only invocation",
+         "No panic, defined exit codes only, stack <= 1024, every taken jump lands on a JUMPDEST outside push data by my own analysis, memory beyond 2^32 rejected (reference comparison), and under STATICCALL at depth 1-3 nine kinds of effect leave state roots, storage, balances, events and tombstones untouched. Held on what was explored; Miri/ASan passes listed in DESIGN.md.",
+         "Trusted: hooks are observation-only (feature verif-hooks); MVM read-only semantics follow the FVM kernel (events and state writes refused).",
+         "DESIGN.md 3/C18"),
+ "C19": ("exploration",
+         "history + executable reference model: systems of 2-4 interpreter contracts run generated call-tree scripts; a journaled world model predicts every read, outcome, final storage, balances, tombstones and surviving events",
+         "Scripts nest CALL / STATICCALL / DELEGATECALL / re-entrant calls to depth 6 with unique-valued SSTORE/TSTORE and reads before and after each call, reverts and INVALID at chosen depths, SELFDESTRUCT, value transfers and logs over sequences of top-level messages; the flattened read report and the end state must equal the model's. Held on the systems explored.",
+         "Trusted: the DSL world model (c19.rs); CREATE inside scripts is covered by C20's factory instead.",
+         "DESIGN.md 3/C19"),
 }
 NOT_YET = "check not built yet in this working session (framework in progress); will be claimed once its monitor exists"
 
